@@ -254,6 +254,21 @@ func (c *FnCtx) enterLoop(bc *blockCtx, li *loopInfo, rr *regionRun) {
 	// 4. havoc heap
 	for _, m := range mods {
 		srt := sorts[m.name]
+		if strings.HasPrefix(m.name, "LK:") {
+			// built-in loop invariant: the locks held by this thread at the loop head are the
+			// same on every iteration (checked at each back edge)
+			c.heapGet(bc.st, m.name, srt)
+			dup := false
+			for _, x := range li.lockNames {
+				if x == m.name {
+					dup = true
+				}
+			}
+			if !dup {
+				li.lockNames = append(li.lockNames, m.name)
+			}
+			continue
+		}
 		if m.whole || len(m.refs) > 6 {
 			c.heapHavoc(bc.st, m.name, srt)
 			c.note(fmt.Sprintf("loop %d: heap array %s havoced as a whole", li.ord, m.name))
@@ -337,6 +352,16 @@ func (c *FnCtx) backEdge(bc *blockCtx, li *loopInfo, cond string, rr *regionRun)
 		return
 	}
 	lbl := c.loopLabel(li)
+	if hs := rr.hdrState[li]; hs != nil {
+		for _, n := range li.lockNames {
+			now := c.heapGet(bc.st, n, c.heapSorts[n])
+			was := c.heapGet(hs, n, c.heapSorts[n])
+			if now != was {
+				r := c.sc.fresh("lock.r", "Int")
+				c.oblige("lock", lbl+":balanced:"+n, cond, "(= (select "+now+" "+r+") (select "+was+" "+r+"))", c.eng.posOf(firstPos(li.header)), "locks held at the loop head are the same on every iteration", c.lockProps())
+			}
+		}
+	}
 	// ghost updates at the latch
 	c.runGhostAt(bc, Anchor{Kind: "latch", Loop: li.ord})
 	if li.spec == nil {
